@@ -269,3 +269,57 @@ Proof. vm_compute. reflexivity. Qed.
 
 Lemma no_attempt_after_stop_refuted : ~ no_attempt_after_stop.
 Proof. exact (counterexample_refutes _ _ _ witness_reset_yields). Qed.
+
+(** ** Back-offs that are zero or negative (Multiplier < 1 decayed below 1 ns,
+    RandomizationFactor > 1).  Nothing in the machine is special-cased for
+    them: Next never hands out an attempt without going through the select,
+    whatever [retry_in] is; the timer of a non-positive delay may fire at once
+    ([LTimerFires] is enabled with no time passed), but it is the runtime that
+    fires it, after [time.After] returned. *)
+Lemma next_yields_only_through_select s u s' ob :
+  is_reset s = false -> step s (LCallNext u) = Some (s', ob) ->
+  ob = OYield false \/
+  (ob = ONone /\ ph s' = PArmed (retry_in (ropts s) (cur s) u) 0 false /\
+   closed s' = closed s /\ cancelled s' = cancelled s).
+Proof.
+  intros Hr H. step_inv_at H; cbn; auto. congruence.
+Qed.
+
+(** Told to stop before the call: if the select looks at its cases before the
+    runtime has fired the timer, Next refuses — for every back-off, zero and
+    negative ones included. *)
+Lemma stopped_prompt_poll_refuses s u s1 ob1 :
+  closed s || cancelled s = true -> is_reset s = false ->
+  step s (LCallNext u) = Some (s1, ob1) ->
+  ob1 = OYield false \/
+  (ob1 = ONone /\ forall pick s2 ob2, step s1 (LPoll pick) = Some (s2, ob2) -> ob2 = OYield false).
+Proof.
+  intros Hc Hr H.
+  destruct (next_yields_only_through_select _ _ _ _ Hr H) as [E|(E & Hp & Ecl & Ex)]; [left; exact E|].
+  right. split; [exact E|]. intros pick s2 ob2 H2.
+  unfold step in H2. rewrite Hp in H2. rewrite <- Ecl, <- Ex in Hc.
+  destruct pick as [[| |]|]; cbn [ready] in H2.
+  - discriminate.
+  - destruct (closed s1); [inversion H2; reflexivity | discriminate].
+  - destruct (cancelled s1); [inversion H2; reflexivity | discriminate].
+  - cbn [orb] in H2. rewrite Hc in H2. discriminate.
+Qed.
+
+(** ... and the select has a case to pick: such a poll is enabled. *)
+Lemma stopped_prompt_poll_enabled s d el f :
+  ph s = PArmed d el f -> closed s || cancelled s = true ->
+  exists pick s', step s (LPoll (Some pick)) = Some (s', OYield false).
+Proof.
+  intros Hp Hc. destruct (closed s) eqn:Ecl.
+  - exists SelCloser. unfold step. rewrite Hp. cbn [ready]. rewrite Ecl. eauto.
+  - cbn [orb] in Hc. exists SelCtx. unfold step. rewrite Hp. cbn [ready]. rewrite Hc. eauto.
+Qed.
+
+(** Decayed and over-wide option sets: the computed delay really is <= 0. *)
+Definition decayed_opts : opts :=
+  {| init_backoff := 1000; max_backoff := 1000000000; multiplier := 1 # 2; max_retries := 0; rand_factor := 1 # 4 |}.
+Definition wide_opts : opts :=
+  {| init_backoff := 1000000; max_backoff := 1000000; multiplier := 1; max_retries := 0; rand_factor := 5 # 1 |}.
+Lemma nonpositive_delays :
+  retry_in decayed_opts 45 (1 # 2) = 0 /\ retry_in wide_opts 0 (1 # 10) = -2999999 /\ retry_in wide_opts 0 (2 # 5) = 0.
+Proof. vm_compute. repeat split. Qed.
